@@ -9363,6 +9363,14 @@ func (l *Lowerer) flattenConstCompose(handle ir.ExpressionHandle) ([]ir.Expressi
 					result = append(result, subComps...)
 				}
 			default:
+				// Any other component (e.g. a binary expression over an override) counts as
+				// ONE flattened element only when it is a scalar; a vector-valued component
+				// cannot be flattened here.
+				if res, err := ir.ResolveExpressionType(l.module, l.currentFunc, comp); err == nil {
+					if _, isScalar := ir.TypeResInner(l.module, res).(ir.ScalarType); !isScalar {
+						return nil, false
+					}
+				}
 				result = append(result, comp)
 			}
 		}
